@@ -91,14 +91,16 @@ def gen_segments(rng, w, geometry='plain'):
     return segs
 
 
-def gen_image(rng, w=None, geometry='plain', n_ops=None):
+def gen_image(rng, w=None, geometry='plain', n_ops=None, segs=None, focus=None):
     """returns (case_segs, info) with info describing which structural features were generated"""
     w = w or rng.choice([8, 16, 16, 32, 32, 64, 64, 64])
     ww = w.bit_length() - 1
     dw = 2 * w
     mask = (1 << w) - 1
     in_addr = 3 * w + w.bit_length()
-    segs = gen_segments(rng, w, geometry)
+    segs = segs or gen_segments(rng, w, geometry)
+    focus = focus or {}
+    f_ops, f_flips, f_jumps = focus.get('ops', []), focus.get('flips', []), focus.get('jumps', [])
     img = Image(w, segs)
     tags = set()
 
@@ -113,6 +115,8 @@ def gen_image(rng, w=None, geometry='plain', n_ops=None):
         return s + rng.randrange(min(l, 80))
 
     def op_addr():
+        if f_ops and rng.random() < 0.6:
+            return rng.choice(f_ops)
         r = rng.random()
         s, l = rng.choice(segs)
         if r < 0.62:
@@ -141,6 +145,8 @@ def gen_image(rng, w=None, geometry='plain', n_ops=None):
         ops.insert(1, dw)                                          # the canonical IO op
 
     def flip_target(ip):
+        if f_flips and rng.random() < 0.5:
+            return rng.choice(f_flips)
         r = rng.random()
         if r < 0.30:
             return (rand_word() << ww) + rng.randrange(w)
@@ -163,6 +169,10 @@ def gen_image(rng, w=None, geometry='plain', n_ops=None):
         return mask - rng.randrange(4)
 
     def jump_target(ip):
+        if f_jumps and rng.random() < 0.5:
+            return rng.choice(f_jumps)
+        if f_ops and rng.random() < 0.5:
+            return rng.choice(f_ops)
         r = rng.random()
         if r < 0.62 and ops:
             return rng.choice(ops)
@@ -236,3 +246,92 @@ def chain_program(rng, w, n, geometry='plain'):
         img.place_op(a, f & ((1 << w) - 1), j & ((1 << w) - 1))
     img.place_op(dw, rng.choice([0, dw + 1, 5]), rng.choice(body))
     return w, img.to_case(rng), ['chain']
+
+
+def directed_native_case(rng):
+    """images + knobs aimed at the cold paths of the native loops. returns (w, case_segs, tags, knobs)"""
+    kind = rng.choice(['cache-collision', 'page-straddle', 'window-edge', 'tiny-window-input', 'ring-flat-lane',
+                       'measured-input-edge', 'magic-collision'])
+    knobs = {}
+    if kind == 'cache-collision':
+        w = rng.choice([32, 64])
+        ww = w.bit_length() - 1
+        n0 = rng.choice([4, 6, 8, 12])
+        far = rng.choice([16, 32, 48, 16 * 64]) * (1 << 14) + rng.choice([0, 2, 6, (1 << 14) - 8])
+        if w == 32:
+            far = 16 * (1 << 14) + rng.choice([0, 2, 6])
+        m = rng.choice([4, 8, 2000])
+        segs = [[0, n0], [far, m]]
+        focus = {'ops': [(n0 - 2) << ww, (n0 - 1) << ww, 0, 2 << ww, far << ww, (far + m - 1) << ww],
+                 'flips': [((far + rng.randrange(min(m, 6))) << ww) + rng.randrange(w) for _ in range(4)] +
+                          [(rng.randrange(n0) << ww) + rng.randrange(w) for _ in range(2)],
+                 'jumps': [(n0 - 2) << ww, (n0 - 1) << ww, far << ww, (far + m - 1) << ww, (far + m - 2) << ww]}
+        knobs = rng.choice([{'no_flat': True}, {'no_flat': True, 'last_ops': 3}, {'flat_max_words': n0}, {'flat_max_words': 2},
+                            {'flat_max_words': n0, 'last_ops': 2}])
+    elif kind == 'page-straddle':
+        w = rng.choice([32, 64])
+        ww = w.bit_length() - 1
+        pg = rng.choice([1, 2, 16]) * (1 << 14)
+        segs = [[0, 6], [pg - 6, 12]]
+        focus = {'ops': [(pg - 1) << ww, (pg - 2) << ww, pg << ww, ((pg - 1) << ww) + rng.randrange(1, w), 0],
+                 'flips': [((pg - 1) << ww) + rng.randrange(w), (pg << ww) + rng.randrange(w), ((pg + 5) << ww) + 1, ((pg + 6) << ww)],
+                 'jumps': [(pg - 1) << ww, (pg - 2) << ww, pg << ww]}
+        knobs = rng.choice([{'no_flat': True}, {'flat_max_words': 4}, {'flat_max_words': pg}, {'flat_max_words': pg - 1},
+                            {'flat_max_words': pg + 1}, {'no_flat': True, 'last_ops': 2}, {}])
+    elif kind == 'window-edge':
+        w = rng.choice([16, 32, 64])
+        ww = w.bit_length() - 1
+        n = rng.choice([12, 16, 24])
+        k = rng.choice([3, 4, 5, 6, 7, 8, n - 1, n])
+        segs = [[0, n]] if rng.random() < 0.6 else [[0, k + (k & 1)], [k + (k & 1) + 2, 6]]
+        focus = {'ops': [(k - 2) << ww, (k - 1) << ww, k << ww, (k + 1) << ww, ((k - 1) << ww) + rng.randrange(1, w), 0],
+                 'flips': [((k + d) << ww) + rng.randrange(w) for d in (-1, 0, 0, 1)],
+                 'jumps': [(k - 2) << ww, (k - 1) << ww, k << ww]}
+        knobs = rng.choice([{'flat_max_words': k}, {'flat_max_words': k, 'last_ops': 3}, {'flat_max_words': k, 'measure': True}, {}])
+    elif kind == 'tiny-window-input':
+        w = rng.choice([16, 32, 64])
+        ww = w.bit_length() - 1
+        segs = [[0, rng.choice([8, 12, 16])]]
+        dw = 2 * w
+        focus = {'ops': [dw, 0, 2 * dw, 3 * dw, dw + rng.randrange(1, w)], 'flips': [dw, dw + 1, 3 * w + ww + 1, 0],
+                 'jumps': [dw, 2 * dw, 3 * dw]}
+        knobs = {'flat_max_words': rng.choice([1, 2, 3, 4, 5])}
+        if rng.random() < 0.3:
+            knobs['last_ops'] = 2
+    elif kind == 'ring-flat-lane':
+        w = rng.choice([16, 32, 64])
+        ww = w.bit_length() - 1
+        n = rng.choice([8, 12, 16])
+        segs = [[0, n]] if rng.random() < 0.5 else [[0, n], [rng.choice([n + 4, 1 << 14, 1 << 23]), 6]]
+        focus = {'ops': [0, 4 << ww, (2 << ww) + rng.randrange(1, w), (6 << ww) + rng.randrange(1, w), segs[-1][0] << ww],
+                 'flips': [], 'jumps': []}
+        knobs = {'last_ops': rng.choice([1, 2, 5, 100])}
+        if rng.random() < 0.4:
+            knobs['flat_max_words'] = rng.choice([4, 6, n])
+    elif kind == 'measured-input-edge':
+        w = rng.choice([8, 16, 32, 64])
+        ww = w.bit_length() - 1
+        dw = 2 * w
+        ia = 3 * w + ww + 1
+        segs = [[0, rng.choice([8, 12])]]
+        focus = {'ops': [ia, ia - dw, ia - dw + 1, ia + 1, ia - 1, dw, 0], 'flips': [], 'jumps': [ia, ia - dw, ia - dw + 1, ia + 1]}
+        knobs = {'measure': True}
+        if rng.random() < 0.3:
+            knobs['no_flat'] = True
+    else:   # magic-collision: words equal to the w=64 fill constant / bit-63 words
+        w = 64
+        ww = 6
+        segs = [[0, rng.choice([8, 12])]] if rng.random() < 0.5 else [[0, 8], [rng.choice([12, 1 << 14]), 6]]
+        focus = {}
+        knobs = rng.choice([{}, {'last_ops': 2}, {'flat_max_words': 6}, {'measure': True}])
+    # only addressable segments: word addresses below 2^w / w
+    limit = 1 << (w - ww)
+    segs = [s for s in segs if s[0] + s[1] <= limit]
+    w2, case_segs, tags = gen_image(rng, w=w, segs=[list(s) for s in segs], focus=focus, n_ops=rng.choice([3, 5, 8]))
+    if kind == 'magic-collision':
+        magic = 0xBB67AE8584CAA73B
+        for sgm in case_segs:
+            for i in range(len(sgm[2])):
+                if rng.random() < 0.25:
+                    sgm[2][i] = rng.choice([magic, magic ^ 1, magic ^ (1 << rng.randrange(64)), 1 << 63])
+    return w2, case_segs, tags + ['directed:' + kind], knobs
